@@ -321,7 +321,7 @@ def strip_pulls(items):
 
 
 # ------------------------------------------------------------------ certificate on impl images
-CERT_PROPS = {"C01", "C02", "C03", "C04", "C05", "C06", "C07", "C11", "C13", "C15"}
+CERT_PROPS = {"C01", "C02", "C03", "C04", "C05", "C06", "C07", "C08", "C11", "C13", "C15"}
 
 
 def run_cert_images(cases, impl, drv, drv_key, tag, timeout=1800):
